@@ -70,4 +70,40 @@ def step (st : St) (ws : List String) : St × String × String × String :=
 
 def stream : Stream := { σ := St, init := {}, step := step }
 
+/-! ### `querystat`: per query line, how many WHERE predicates it has and how many of them take the same
+    value on every row they are evaluated on (reference tables); used for the generator statistics -/
+
+def predStats (env : Env) : Query → Table → Nat × Nat
+  | [], _ => (0, 0)
+  | c :: q, T =>
+    -- only predicates evaluated on at least two rows are counted
+    let count (e : Expr) (rows : Table) : Nat × Nat :=
+      let vs := rows.map fun r => eval small env r e
+      if rows.length < 2 then (0, 0) else (1, if vs.eraseDups.length ≤ 1 then 1 else 0)
+    let (here, T') : (Nat × Nat) × Table := match c with
+      | .match_ o ps => ((0, 0), Spec.denoteMatch small env o ps T)
+      | .where_ e => (count e T, T.filter (evalBool small env · e))
+      | .unwind e x => ((0, 0), Spec.denoteUnwind small env e x T)
+      | .with_ p w =>
+        let T' := match Spec.denoteProj small env p w T with | .ok t => t | .error _ => []
+        (match w with
+          | some e => count e (match Spec.denoteProj small env p none T with | .ok t => t | .error _ => [])
+          | none => (0, 0), T')
+      | .return_ _ => ((0, 0), T)
+    let rest := predStats env q T'
+    (here.1 + rest.1, here.2 + rest.2)
+
+def statStep (st : St) (ws : List String) : St × String × String × String :=
+  match ws with
+  | "query" :: _mode :: _text :: sx =>
+    match (parse (" ".intercalate sx)).bind queryOf with
+    | some q =>
+      let (n, c) := predStats { g := st.g } q [[]]
+      let rows := match Spec.denote small { g := st.g } q with | .ok r => r.rows.length | .error _ => 0
+      (st, "stat " ++ toString n ++ " " ++ toString c ++ " " ++ toString rows, "-", "")
+    | none => (st, "bad-op", "-", "")
+  | _ => let (st', _, _, _) := step st ws; (st', "-", "-", "")
+
+def statStream : Stream := { σ := St, init := {}, step := statStep }
+
 end Nervus.Driver.CypherStream
